@@ -288,26 +288,19 @@ Section Paths.
       [exec] is the handler for a message that names the pair's OWN denomination
       (MsgConvertERC20 names none: the handler uses pair.Denom).  The handler
       finds the pair through GetTokenPairID, which also accepts a contract
-      address written as 40 hex digits without 0x — and such a string is a
+      address written as 40 hex digits without 0x - and such a string is a
       syntactically valid bank denomination when its first digit is a-f.  For a
-      MsgConvertCoin spelled that way the pair is found BY ADDRESS and the path
-      runs unchanged, but its bank operations use `sdk.Coins{msg.Coin}`: the
-      ledger [other] of the look-alike denomination, not the pair's.
-
-      No transaction of the chain can create coins of such a denomination (bank
-      denominations are acanto, ibc/HASH, erc20/0x..., lpt-N), so this branch is
-      not reachable from a genesis without such coins.  It is modelled only to
-      make the precondition "the message names the pair's own denomination" of
-      the exactness theorem explicit; the harness exercises it only on request
-      (VERIF_C04_LOOKALIKE=1). *)
+      MsgConvertCoin spelled that way the pair is found BY ADDRESS.  The handler
+      then compares the coin's denomination with pair.Denom and refuses the
+      message when they differ (guard added by the repair of finding F6; before
+      it the path ran on with `sdk.Coins{msg.Coin}`, escrowing the look-alike
+      coin and handing out the pair's tokens).  The guard sits directly after
+      MintingEnabled and before the self-destruct pruning: nothing has moved and
+      the pair is not removed.  [other] is the ledger of the look-alike
+      denomination. *)
   Definition exec_named (own_denom : bool) (m : msg) (other : bank) (s : state) : outcome * bank :=
     match m_dir m, own_denom with
-    | CoinToToken, false =>
-        match exec m (other, snd s) with
-        | Done (other', e') => (Done (fst s, e'), other')    (* the pair's own ledger is not touched *)
-        | Removed => (Removed, other)
-        | Failed x _ => (Failed x (fst s), other)            (* partial effects sit on [other]; the branch drops them *)
-        end
+    | CoinToToken, false => (Failed EGate (fst s), other)
     | _, _ => (exec m s, other)
     end.
 
